@@ -7,6 +7,7 @@
 
 mod engine;
 mod engine_blob;
+mod engine_cabi;
 mod engine_io;
 mod json;
 mod prng;
@@ -21,7 +22,7 @@ use std::process::{Command, Stdio};
 use std::time::{Duration, Instant};
 
 fn engines() -> Vec<Box<dyn Engine>> {
-    vec![Box::new(engine_io::IoEngine), Box::new(engine_blob::BlobEngine)]
+    vec![Box::new(engine_io::IoEngine), Box::new(engine_blob::BlobEngine), Box::new(engine_cabi::CabiEngine)]
 }
 
 fn engine_for(id: &str) -> Option<Box<dyn Engine>> {
